@@ -512,10 +512,14 @@ func (sp *specParser) primary() (*SExpr, error) {
 			}
 			return e, nil
 		}
-		if t.text == "*" {
-			// Pointer type used as conversion/type argument: (*T)(x) is not
-			// needed; support deref-free language only.
-			return nil, fmt.Errorf("unexpected '*' at %d", t.pos)
+		if t.text == "*" || t.text == "[" {
+			// a type expression used as an argument: *T, []T, [N]T
+			sp.p--
+			ty, err := sp.typeExpr()
+			if err != nil {
+				return nil, err
+			}
+			return &SExpr{Op: "type", Type: ty}, nil
 		}
 	}
 	return nil, fmt.Errorf("unexpected token %q at %d", t.text, t.pos)
@@ -629,6 +633,8 @@ func (e *SExpr) String() string {
 		return "(" + e.Name + " " + strings.Join(bs, ", ") + " :: " + e.Args[0].String() + ")"
 	case "typeassert":
 		return e.Args[0].String() + ".(" + e.Type.String() + ")"
+	case "type":
+		return e.Type.String()
 	}
 	return "?" + e.Op
 }
